@@ -1,427 +1,36 @@
 package c02
 
 import (
-	"context"
-	"errors"
-	"fmt"
-	"sort"
-	"strings"
-	"sync"
+	"os"
+	"runtime"
 	"testing"
 	"time"
 
-	"github.com/twmb/franz-go/pkg/kbin"
-	"github.com/twmb/franz-go/pkg/kerr"
-	"github.com/twmb/franz-go/pkg/kfake"
-	"github.com/twmb/franz-go/pkg/kgo"
-	"github.com/twmb/franz-go/pkg/kmsg"
-
+	"verif/checks/c02/iscen"
+	"verif/lib/explore"
 	"verif/lib/netctl"
 	"verif/lib/nrun"
-	"verif/lib/nscen"
 )
-
-// Scenario family I (DESIGN.md §4 C02): one idempotent producer (the
-// default), two brokers, topic t; every record is its own batch (the batch
-// size limit admits exactly one padded record), so the produce requests of one
-// partition pipeline once the first one was acknowledged. An ENV thread moves
-// the leader of t/0 once. The oracle compares what the promises said with the
-// partition logs read back by an uncontrolled raw reader.
-
-// pad makes one record fill more than half of the smallest legal batch
-// (ProducerBatchMaxBytes 512), so two records never share a batch.
-var pad = strings.Repeat("x", 300)
-
-type outcome struct {
-	err       error
-	offset    int64
-	partition int32
-}
-
-type spec struct {
-	name      string
-	partition int32
-}
-
-type state struct {
-	c   *kfake.Cluster
-	cl  *kgo.Client
-	led *nscen.Ledger
-
-	mu        sync.Mutex
-	names     map[*kgo.Record]string
-	outcomes  map[string][]outcome // what each promise invocation saw (Offset/Partition read inside the promise)
-	produced  map[int32][]string   // order in which Produce was called, per partition
-	attempts  map[string]int       // Produce requests delivered to a broker that carried the record
-	onProduce func()
-	nparts    int32
-	total     int           // records the scenario produces
-	allDone   chan struct{} // closed when every record was promised
-	relaxed   bool          // AllowIdempotentProduceCancellation: an error-promised record may be in the log
-}
-
-func (st *state) record(name string, p int32) *kgo.Record {
-	r := &kgo.Record{Topic: "t", Partition: p, Value: []byte(name + "|" + pad)}
-	st.led.Hand(name, r)
-	st.mu.Lock()
-	st.names[r] = name
-	st.produced[p] = append(st.produced[p], name)
-	st.mu.Unlock()
-	return r
-}
-
-func (st *state) promise() func(*kgo.Record, error) {
-	lp := st.led.Promise()
-	return func(r *kgo.Record, err error) {
-		st.mu.Lock()
-		if n, ok := st.names[r]; ok {
-			st.outcomes[n] = append(st.outcomes[n], outcome{err: err, offset: r.Offset, partition: r.Partition})
-			if len(st.outcomes) == st.total && len(st.outcomes[n]) == 1 {
-				close(st.allDone)
-			}
-		}
-		st.mu.Unlock()
-		lp(r, err)
-	}
-}
-
-// producedNames decodes a Produce request frame and returns the names of the
-// records in it.
-func producedNames(frame []byte) []string {
-	req, _, ok := netctl.DecodeRequest(frame)
-	if !ok {
-		return nil
-	}
-	pr, ok := req.(*kmsg.ProduceRequest)
-	if !ok {
-		return nil
-	}
-	var out []string
-	for _, t := range pr.Topics {
-		for _, p := range t.Partitions {
-			var b kmsg.RecordBatch
-			if err := b.ReadFrom(p.Records); err != nil {
-				continue
-			}
-			recs := b.Records
-			for i := int32(0); i < b.NumRecords; i++ {
-				var r kmsg.Record
-				rl, n := kbin.Varint(recs)
-				if n <= 0 || int(rl)+n > len(recs) || r.ReadFrom(recs[:int(rl)+n]) != nil {
-					break
-				}
-				recs = recs[int(rl)+n:]
-				out = append(out, nameOf(string(r.Value)))
-			}
-		}
-	}
-	return out
-}
-
-func nameOf(v string) string {
-	if i := strings.IndexByte(v, '|'); i >= 0 {
-		return v[:i]
-	}
-	return "?" + nscen.ErrClass(fmt.Errorf("%s", v))
-}
-
-// errKind is the stable class of a promise error (part of the violation key).
-func errKind(err error) string {
-	var ke *kerr.Error
-	switch {
-	case errors.Is(err, kgo.ErrRecordTimeout):
-		return "record-timeout"
-	case errors.Is(err, kgo.ErrRecordRetries):
-		return "record-retries"
-	case errors.Is(err, context.Canceled):
-		return "context-canceled"
-	case errors.As(err, &ke):
-		return ke.Message
-	}
-	return "other"
-}
-
-func faults(x *netctl.Exec, dir string, key int16, c *netctl.Conn) []string {
-	switch {
-	case key == 0 && dir == "req":
-		// killbefore: never reached the broker. err:6 NOT_LEADER, err:19
-		// NOT_ENOUGH_REPLICAS, err:7 REQUEST_TIMED_OUT: answered without
-		// being processed. errafter:7 / errafter:20
-		// (NOT_ENOUGH_REPLICAS_AFTER_APPEND): appended, then answered with
-		// the ambiguous error. stall: frozen until the client gives up.
-		return []string{"killbefore", "err:6", "err:19", "err:7", "errafter:7", "errafter:20", "stall"}
-	case key == 0 && dir == "resp":
-		return []string{"killafter"} // appended, response lost
-	case (key == 3 || key == 22) && dir == "req":
-		return []string{"killbefore"}
-	case (key == 3 || key == 22) && dir == "resp":
-		return []string{"killafter"}
-	}
-	return nil
-}
-
-type variant struct {
-	name    string
-	nparts  int32
-	recs    []spec
-	opts    []kgo.Opt
-	relaxed bool
-	move    bool
-	// cancelRec, if set, is produced with a cancellable context that a
-	// second thread cancels.
-	cancelRec string
-}
-
-func scenario(v variant) *netctl.Scenario {
-	return &netctl.Scenario{
-		Name:    v.name,
-		Faults:  faults,
-		Horizon: 4 * time.Minute,
-		Setup: func(x *netctl.Exec) {
-			c := x.Cluster(2, kfake.SeedTopics(v.nparts, "t"))
-			c.MoveTopicPartition("t", 0, 0)
-			if v.nparts > 1 {
-				c.MoveTopicPartition("t", 1, 1)
-			}
-			st := &state{c: c, led: nscen.NewLedger(), names: map[*kgo.Record]string{}, outcomes: map[string][]outcome{},
-				produced: map[int32][]string{}, attempts: map[string]int{}, nparts: v.nparts, relaxed: v.relaxed, total: len(v.recs), allDone: make(chan struct{})}
-			x.Data = st
-			opts := append([]kgo.Opt{
-				kgo.RecordPartitioner(kgo.ManualPartitioner()),
-				kgo.ProducerLinger(0),
-				kgo.ProducerBatchMaxBytes(512), // one padded record per batch
-				kgo.ProducerBatchCompression(kgo.NoCompression()),
-				kgo.ProduceRequestTimeout(5 * time.Second),
-			}, v.opts...)
-			st.cl = nscen.NewClient(x, "p", c, opts...)
-			// Every Produce request that reaches a broker: which records it
-			// carries (attempt counts are part of the observed outcome class).
-			x.FrameHook = func(_ *netctl.Conn, dir string, key, _ int16, frame []byte) {
-				if dir != "req" || key != 0 {
-					return
-				}
-				if st.onProduce != nil {
-					st.onProduce()
-				}
-				st.mu.Lock()
-				for _, n := range producedNames(frame) {
-					st.attempts[n]++
-				}
-				st.mu.Unlock()
-			}
-			cctx, cancel := context.WithCancel(context.Background())
-			x.OnCleanup(cancel)
-			x.Thread("T1", func(t *netctl.Thread) {
-				for _, s := range v.recs {
-					t.Step("produce-" + s.name)
-					ctx := context.Background()
-					if s.name == v.cancelRec {
-						ctx = cctx
-					}
-					st.cl.Produce(ctx, st.record(s.name, s.partition), st.promise())
-				}
-			})
-			if v.cancelRec != "" {
-				x.Thread("T2", func(t *netctl.Thread) {
-					t.Step("cancel-" + v.cancelRec + "-ctx")
-					cancel()
-				})
-			}
-			if v.move {
-				// The move becomes possible once the first Produce request reached
-				// a broker (a move before that is only a different initial
-				// placement); by default it happens right then, i.e. while that
-				// request is unanswered, and deviations delay it.
-				first, giveUp := make(chan struct{}), make(chan struct{})
-				var once sync.Once
-				st.onProduce = func() { once.Do(func() { close(first) }) }
-				x.OnCleanup(func() { close(giveUp) })
-				x.Thread("ENV", func(t *netctl.Thread) {
-					select {
-					case <-first:
-					case <-giveUp:
-						return
-					case <-st.allDone: // every record failed before any Produce request was sent
-						return
-					}
-					t.Step("move-t0-to-b1")
-					c.MoveTopicPartition("t", 0, 1)
-				})
-			}
-		},
-		Done: func(x *netctl.Exec) bool {
-			st := x.Data.(*state)
-			return x.ThreadsDone() && len(st.led.Outstanding()) == 0
-		},
-		Final: final,
-	}
-}
-
-func final(x *netctl.Exec) {
-	st := x.Data.(*state)
-	// The environment is well behaved from here on: wait (virtual time) for
-	// the promises still outstanding, so that every record has a verdict.
-	deadline := time.Now().Add(3 * time.Minute)
-	for len(st.led.Outstanding()) > 0 && time.Now().Before(deadline) {
-		time.Sleep(100 * time.Millisecond)
-	}
-	if out := st.led.Outstanding(); len(out) > 0 {
-		// C01's subject; reported because those records escape C02's oracle.
-		x.Violate("aux-promise-never", "records %v not promised 3 virtual minutes into a fault-free suffix (they cannot be judged)", out)
-	}
-	st.led.Check(x, false) // a record promised twice has no single verdict
-
-	// Independent view of the log.
-	type hit struct {
-		partition int32
-		offset    int64
-	}
-	where := map[string][]hit{}
-	var logs []string
-	for p := int32(0); p < st.nparts; p++ {
-		var l []string
-		for _, r := range readRaw(x, st.c, "t", p) {
-			if r.Control {
-				continue
-			}
-			n := nameOf(r.Value)
-			where[n] = append(where[n], hit{p, r.Offset})
-			l = append(l, fmt.Sprintf("%s@%d", n, r.Offset))
-		}
-		logs = append(logs, fmt.Sprintf("p%d=[%s]", p, strings.Join(l, " ")))
-	}
-
-	st.mu.Lock()
-	defer st.mu.Unlock()
-	known := map[string]int32{}
-	for p, names := range st.produced {
-		for _, n := range names {
-			known[n] = p
-		}
-	}
-	var inLog []string
-	for n := range where {
-		inLog = append(inLog, n)
-	}
-	sort.Strings(inLog)
-	for _, n := range inLog {
-		hs := where[n]
-		if _, ok := known[n]; !ok {
-			x.Violate("foreign-record", "log holds %q at %v which was never produced", n, hs)
-		}
-		if len(hs) > 1 {
-			x.Violate("duplicate-in-log", "record %s appears %d times in the log: %v  (%s)", n, len(hs), hs, strings.Join(logs, " "))
-		}
-		for _, h := range hs {
-			if want, ok := known[n]; ok && h.partition != want {
-				x.Violate("wrong-partition", "record %s produced to partition %d is in partition %d", n, want, h.partition)
-			}
-		}
-	}
-	var all []string
-	for n := range known {
-		all = append(all, n)
-	}
-	sort.Strings(all)
-	// One violation per class and execution (the records of a partition fail
-	// together, so a per-record report would only repeat itself).
-	agg := map[string][]string{}
-	for _, n := range all {
-		want := known[n]
-		oc := st.outcomes[n]
-		if len(oc) == 0 {
-			continue
-		}
-		o, hs := oc[0], where[n]
-		switch {
-		case o.err == nil:
-			if len(hs) == 0 {
-				agg["acked-missing"] = append(agg["acked-missing"], fmt.Sprintf("%s promised success at offset %d but is not in the log", n, o.offset))
-				continue
-			}
-			if len(hs) == 1 && (hs[0].offset != o.offset || o.partition != want) {
-				agg["acked-offset-mismatch"] = append(agg["acked-offset-mismatch"], fmt.Sprintf("%s promised success with partition %d offset %d but the log has it at partition %d offset %d", n, o.partition, o.offset, hs[0].partition, hs[0].offset))
-			}
-		case !st.relaxed:
-			if len(hs) > 0 {
-				k := "failed-in-log:" + errKind(o.err)
-				agg[k] = append(agg[k], fmt.Sprintf("%s promised error %q but is in the log at partition %d offset %d", n, o.err, hs[0].partition, hs[0].offset))
-			}
-		}
-	}
-	var keys []string
-	for k := range agg {
-		keys = append(keys, k)
-	}
-	sort.Strings(keys)
-	for _, k := range keys {
-		x.Violate(k, "%s  (%s)", strings.Join(agg[k], "; "), strings.Join(logs, " "))
-	}
-	// Produce order among the acknowledged records of a partition.
-	for p := int32(0); p < st.nparts; p++ {
-		names := st.produced[p]
-		last, lastName := int64(-1), ""
-		for _, n := range names {
-			oc := st.outcomes[n]
-			if len(oc) == 0 || oc[0].err != nil || len(where[n]) != 1 {
-				continue
-			}
-			off := where[n][0].offset
-			if off <= last {
-				x.Violate("acked-out-of-order", "partition %d: %s was produced before %s but sits at offset %d >= %d  (%s)", p, lastName, n, last, off, strings.Join(logs, " "))
-			}
-			last, lastName = off, n
-		}
-	}
-	// Terminal observation: outcome class per record plus log contents.
-	var cls []string
-	for n := range known {
-		oc := st.outcomes[n]
-		switch {
-		case len(oc) == 0:
-			cls = append(cls, n+"=none")
-		case oc[0].err == nil:
-			cls = append(cls, fmt.Sprintf("%s=ok/%d", n, st.attempts[n]))
-		default:
-			cls = append(cls, fmt.Sprintf("%s=err:%s/%d", n, errKind(oc[0].err), st.attempts[n]))
-		}
-	}
-	sort.Strings(cls)
-	x.Observe("%s %s", strings.Join(cls, ","), strings.Join(logs, " "))
-}
-
-var (
-	six  = []spec{{"r1", 0}, {"r2", 1}, {"r3", 0}, {"r4", 1}, {"r5", 0}, {"r6", 1}}
-	four = []spec{{"r1", 0}, {"r2", 0}, {"r3", 0}, {"r4", 0}}
-	// Fail paths. A batch may be failed once it was sent more than
-	// RecordRetries times or is older than RecordDeliveryTimeout, but only if
-	// the client is certain it was not appended. The limits are chosen so that
-	// two deviations reach them: with RecordRetries(1) the second failed
-	// attempt is the last; with ProduceRequestTimeout 5s (+1s overhead) one
-	// stalled or never-answered request outlives RecordDeliveryTimeout(5s).
-	retryOpts   = []kgo.Opt{kgo.RecordRetries(1), kgo.RecordDeliveryTimeout(30 * time.Second)}
-	timeoutOpts = []kgo.Opt{kgo.RecordRetries(3), kgo.RecordDeliveryTimeout(5 * time.Second)}
-	cancelOpts  = []kgo.Opt{kgo.AllowIdempotentProduceCancellation(), kgo.RecordRetries(1), kgo.RecordDeliveryTimeout(5 * time.Second)}
-)
-
-// I-1p comes last: the k=1 scenarios finish early and their unused time rolls
-// over to its deeper levels.
-var plans = []nrun.Plan{
-	{Scenario: scenario(variant{name: "I-2p", nparts: 2, move: true, recs: six}),
-		QuickBudget: 1, ThoroughBudget: 2, ThoroughFaultOnlyFrom: 2},
-	{Scenario: scenario(variant{name: "I-fail", nparts: 2, move: true, recs: six, opts: timeoutOpts}),
-		QuickBudget: 1, ThoroughBudget: 2, ThoroughFaultOnlyFrom: 2},
-	{Scenario: scenario(variant{name: "I-cancel", nparts: 2, move: true, recs: six, relaxed: true, cancelRec: "r3", opts: cancelOpts}),
-		QuickBudget: 1, ThoroughBudget: 2, ThoroughFaultOnlyFrom: 2},
-	{Scenario: scenario(variant{name: "I-1p", nparts: 1, move: true, recs: four, opts: retryOpts}),
-		QuickBudget: 2, QuickFaultOnlyFrom: 2, ThoroughBudget: 3, ThoroughFaultOnlyFrom: 3, Weight: 2},
-}
 
 func TestC02(t *testing.T) {
+	if explore.IsWorker() || os.Getenv("VERIF_REPLAY") != "" {
+		// The first execution of a fresh process occasionally orders two
+		// frames that arrive inside one event differently from every later
+		// (warm) execution; if that execution is the level-0 run, all its
+		// children diverge on replay. One throw-away default execution per
+		// scenario makes every execution that counts (replays included) a
+		// warm one.
+		if !explore.IsWorker() {
+			runtime.GOMAXPROCS(1) // as in the workers: with several Ps a replay diverges about one time in three
+		}
+		for _, p := range iscen.Plans() {
+			netctl.Run(t, p.Scenario, explore.Job{Scenario: p.Scenario.Name})
+		}
+	}
 	nrun.Main(t, &nrun.Check{
-		ID: "C02", TestName: "TestC02", Plans: plans,
+		ID: "C02", TestName: "TestC02", Plans: iscen.Plans(),
 		QuickTime: 75 * time.Second, ThorTime: 18 * time.Minute,
-		Rule:   "engine N: every order of Produce calls, a leader move, request/response frame deliveries, timer ticks and injected faults (produce: connection kill before/after handling, NOT_LEADER, NOT_ENOUGH_REPLICAS, REQUEST_TIMED_OUT before and after append, NOT_ENOUGH_REPLICAS_AFTER_APPEND, stalled request; metadata/InitProducerID: kill before/after) within k deviations of the default order, for four idempotent-producer scenarios (one record per batch, pipelined requests; two partitions on two brokers; small RecordRetries + RecordDeliveryTimeout; single partition; AllowIdempotentProduceCancellation with a cancelled record context); distinct = distinct terminal outcomes (per-record promise class plus final log contents) per scenario",
+		Rule:   "engine N: every order of Produce calls, a leader move, request/response frame deliveries, timer ticks and injected faults (produce: connection kill before/after handling, NOT_LEADER, NOT_ENOUGH_REPLICAS, REQUEST_TIMED_OUT before and after append, NOT_ENOUGH_REPLICAS_AFTER_APPEND, stalled request; metadata/InitProducerID: kill before/after) within k deviations of the default order, for four idempotent-producer scenarios (one record per batch, pipelined requests; two partitions on two brokers; small RecordRetries + RecordDeliveryTimeout; single partition; AllowIdempotentProduceCancellation with a cancelled record context); distinct = distinct terminal outcomes (per-record promise class and number of Produce requests that carried the record, plus final log contents) per scenario",
 		Assume: []string{"kfake is the broker, including its duplicate window (C29/C32 check that)", "synctests build of xsync (C31 covers the channel mutexes)", "goroutine micro-interleavings inside one event are the Go runtime's"},
 	})
 }
